@@ -39,7 +39,8 @@ type SimplePage struct {
 	GhostContent bool
 	// CutOff: after the items the content stream goes on with one more show operation
 	// that is damaged: "string" = the stream ends inside its literal string,
-	// "hex" = its hexadecimal string holds a character that is no hex digit
+	// "hex" = its hexadecimal string holds a character that is no hex digit,
+	// "dict" = it ends inside a dictionary operand, after white space
 	CutOff string
 }
 
@@ -143,6 +144,8 @@ func contentStream(p SimplePage, content string) *Stream {
 	switch p.CutOff {
 	case "string":
 		content += "BT /F1 11 Tf 1 0 0 1 72 90 Tm (Confidential draft, do not distribute: the stream ends he"
+	case "dict":
+		content += "/Span <</MCID 1 "
 	case "hex":
 		content += "BT /F1 11 Tf 1 0 0 1 72 90 Tm <436f6e666964656e7469616c20647261667421zz> Tj ET\n"
 	}
